@@ -58,6 +58,19 @@ def make_problem(rng, np, nrb, nel, nrf, mform, bform, kform, interleave, nt=5, 
     return sol, m, b, k, nrb, (rf if nrf else None), el, rf, env
 
 
+def close(x, y):
+    """equal to a few ulp of the array's scale: the statement is about WHAT is computed, not about the order of the floating-point
+    operations (a cached path may legitimately associate differently)"""
+    import numpy as np
+    x, y = np.asarray(x), np.asarray(y)
+    if x.shape != y.shape:
+        return False
+    if x.size == 0:
+        return True
+    sc = max(float(np.abs(y).max()), float(np.abs(x).max()))
+    return bool(np.abs(x - y).max() <= 1e-13 * sc) if sc > 0 else True
+
+
 def run_uf(run):
     import numpy as np
     import copy
@@ -97,8 +110,8 @@ def run_uf(run):
                 run.case((p, tuple(map(tuple, [u for u, _ in h])), tuple(md for _, md in h)), nontrivial=(len(set(map(str, h))) > 1), part="B:apply_uf")
                 bad = None
                 for nm in ("a", "v", "d", "d_static", "d_dynamic") + (("pg",) if hasattr(sol, "pg") else ()):
-                    if getattr(out, nm).tobytes() != getattr(fresh, nm).tobytes():
-                        bad = "result with the shared cache differs bit-for-bit from a cache-free call (%s)" % nm
+                    if not close(getattr(out, nm), getattr(fresh, nm)):
+                        bad = "result with the shared cache differs from a cache-free call (%s)" % nm
                 if bad is None:
                     e = dict(env, **{kk: vv for kk, vv in zip(("ruf", "euf", "duf", "suf"), vals)})
                     rec = table[tuple(uf)]
@@ -116,13 +129,13 @@ def run_uf(run):
                         if not np.abs(got[q][rows] - exp[q][rows]).max() <= 1e-10 * sc:
                             bad = "%s does not equal the documented scaling (spec term)" % q
                     if bad is None and len(el) + len(rf) > 0 or nrb == n:
-                        if not np.array_equal(out.d, out.d_static + out.d_dynamic):
+                        if not close(out.d, out.d_static + out.d_dynamic):
                             bad = "d != d_static + d_dynamic"
                     if bad is None and hasattr(sol, "pg"):
                         if not np.allclose(out.pg, terms.ev(rec["pg"], e), rtol=1e-14, atol=0):
                             bad = "pg scaling"
                     if bad is None and all(c == "one" for c in uf):
-                        if not (np.array_equal(out.a[:nrb], sol.a[:nrb]) and np.array_equal(out.v[el], sol.v[el])):
+                        if not (close(out.a[:nrb], sol.a[:nrb]) and close(out.v[el], sol.v[el])):
                             bad = "unit factors changed a/v"
                         if len(el) and not np.allclose(out.d[el], sol.d[el], rtol=1e-9, atol=1e-9 * np.abs(sol.d).max()):
                             bad = "unit factors changed the elastic displacement"
@@ -169,7 +182,7 @@ def run_uf(run):
             for key, out in outs.items():
                 fresh = apply_uf(sol, key, m, b, k, nrb, rfm, None)
                 for nm in ("a", "v", "d", "d_static", "d_dynamic", "pg"):
-                    if getattr(out, nm).tobytes() != getattr(fresh, nm).tobytes():
+                    if not close(getattr(out, nm), getattr(fresh, nm)):
                         run.violation("DR_Event.apply_uf (shared cache, registration order %r) differs from a cache-free apply_uf for %r (%s)"
                                       % (order, key, nm), {"problem": p, "order": order, "uf": key}, {"target": "apply_uf"})
                         return
